@@ -261,10 +261,13 @@ def run(cx):
         # the configured maximum is stored and handed on as given (no clamp, no default substituted): constructors and layer()
         IL = "anemo_tower::inflight_limit"
         for fn_, want in ((f"{IL}::InflightLimitLayer::new", "param"), (f"{IL}::InflightLimit::new", "param"), (f"{IL}::InflightLimit::layer", "param"),
-                          (f"<{IL}::InflightLimitLayer as tower_layer::Layer<S>>::layer", "self")):
-            fb = prog.bodies.get(fn_)
+                          ("<Layer impl>", "self")):
+            # (the Layer impl is found by type and trait: the name of its type parameter is free)
+            fb = prog.bodies.get(fn_) if fn_ != "<Layer impl>" else cx.impl_method(f"{IL}::InflightLimitLayer", "Layer", "layer")
             if fb is None:
                 raise AnchorLost(f"body {fn_}")
+            if fn_ == "<Layer impl>":
+                fn_ = f"{IL}::InflightLimitLayer::Layer::layer"
             t = strip_identity(Origins(fb).of_local(0))
             # (a constructor may delegate to another of these constructors)
             if t[0] == "call" and name_matches(t[1], (f"{IL}::InflightLimitLayer::new", f"{IL}::InflightLimit::new")):
